@@ -965,7 +965,12 @@ def vdist2(vtype, a, b):
 def check_runavev_case(run, c, k, impl_lines, scratch, model):
     replay = {"kind": "runavev", "case": c}
     if any(l.startswith("CONFIG err=") and "err=ok" not in l for l in impl_lines) or any(l.startswith("STEP") and "err=ok" not in l for l in impl_lines):
-        run.mismatch("runavev-run", c, [l for l in impl_lines if "err=" in l][:6], "every step and configuration succeeds")
+        bad = [l for l in impl_lines if l.startswith("STEP") and "err=ok" not in l]
+        if bad and not any(l.startswith("CONFIG err=") and "err=ok" not in l for l in impl_lines):
+            run.violation("runave:step-error:" + c["vtype"], "the running average of a variable of type %s makes the step fail: %s"
+                          % (c["vtype"], bad[0]), replay)
+        else:
+            run.mismatch("runavev-run", c, [l for l in impl_lines if "err=" in l][:6], "every step and configuration succeeds")
         return 0
     # the values the implementation computed for v0, one per calc in which v0 exists
     vals = []
@@ -1125,6 +1130,106 @@ def gen_runavev_case(r, tier):
     return {"kind": "runavev", "vtype": vt, "L": L, "stride": stride, "t0": t0, "it0": it0, "events": events}
 
 
+
+# ------------------------------------------------------------------ which steps write which files
+def out_scenario(c, k):
+    v = ["colvar {", "  name v0", "  lowerBoundary -16.0", "  upperBoundary 16.0", "  width 1.0", "  corrFunc on", "  corrFuncType coordinate",
+         "  corrFuncLength 1", "  corrFuncStride 1", "  distanceZ {", "    main { atomNumbers 1 }", "    ref { dummyAtom (0,0,0) }", "    axis (0,0,1)", "  }", "}"]
+    bl = []
+    for b, f in c["biases"]:
+        bl += ["histogram {", "  name b%d" % b, "  colvars v0", "  outputFreq %d" % f, "}"]
+    L = ["echo CASE %d" % k, "natoms 2", "temperature 300", "dt 1.0", "prefix c%ds0" % k, "restartfreq %d" % c["R"], "new", "capture"]
+    if c["it0"]:
+        L.append("setstep %d" % c["it0"])
+    L += heredoc(["colvarsTrajFrequency 0"] + v + bl) + ["show atomf 0 cv 0 bias 0 energy 0", "wlog"]
+    for ev in c["events"]:
+        if ev[0] == "step":
+            L += ["pos 1 0 0 %s" % hx(ev[1]), "step", "wlog"]
+        elif ev[0] == "boundary":
+            L.append("runboundary")
+    L += ["postrun", "wlog", "flush", "restartfreq 0", "echo END %d" % k]
+    return L
+
+
+def check_out_case(run, c, k, impl_lines, scratch, model):
+    replay = {"kind": "out", "case": c}
+    if any(l.startswith("CONFIG err=") and "err=ok" not in l for l in impl_lines) or any(l.startswith("STEP") and "err=ok" not in l for l in impl_lines):
+        run.mismatch("out-run", c, [l for l in impl_lines if "err=" in l][:6], "every step and configuration succeeds")
+        return 0
+    got = []
+    for l in impl_lines:
+        if l.startswith("WROTE state"):
+            got.append("state@" + l.split("it=")[1])
+        elif l.startswith("WROTE colvar"):
+            got.append("colvar@" + l.split("it=")[1])
+        elif l.startswith("WROTE bias"):
+            nm = os.path.basename(l.split()[2]).split(".")[1]
+            got.append(nm + "@" + l.split("it=")[1])
+    # event list
+    evs = []
+    it = c["it0"]
+    first, boundary = True, False
+    for ev in c["events"]:
+        if ev[0] == "step":
+            if first:
+                first = False
+            elif not boundary:
+                it += 1
+            boundary = False
+            evs.append(("C", it))
+        else:
+            boundary = True
+    evs.append(("E", it))
+    last = it
+    line = "OUT %d %d %d %s %d %s" % (c["R"], c["it0"], len(c["biases"]), " ".join("%d %d" % (b, f) for b, f in c["biases"]), len(evs),
+                                    " ".join("%s %d" % e for e in evs))
+    rc, mout, err = V.run_lines(model, [line])
+    if rc != 0 or len(mout) != 1:
+        run.mismatch("out-model", c, err[-300:], mout[:2])
+        return 0
+    want = mout[0].split()
+    # ---- oracle: documented frequencies, final files describe the final step, nothing written twice for one calc
+    def steps_of(kind):
+        return [int(g.split("@")[1]) for g in got if g.split("@")[0] == kind]
+    calc_its = [i for t, i in evs if t == "C"]
+    for kind, f in [("colvar", c["R"]), ("state", c["R"])] + [("b%d" % b, fb) for b, fb in c["biases"]]:
+        st = steps_of(kind)
+        run.dist("oracle:outfiles:" + ("bias" if kind.startswith("b") else kind))
+        atfreq = [i for i in calc_its if f and i > c["it0"] and i % f == 0]
+        if not st or st[-1] != last:
+            run.violation("outfiles:%s-not-at-end" % ("bias" if kind.startswith("b") else kind),
+                          "after the end of the run (last step %d) the last write of the %s output file(s) was at step %s"
+                          % (last, kind, st[-1] if st else None), replay)
+        elif kind != "state" and (st[:-1] if not (f and last > c["it0"] and last % f == 0) else st) != atfreq:
+            run.violation("outfiles:schedule", "%s file(s) written at steps %s; its frequency %d gives %s, plus the end of the run"
+                          % (kind, st, f, atfreq), replay)
+    spath = os.path.join(scratch, "c%ds0.colvars.state" % k)
+    if os.path.exists(spath):
+        m = re.search(r"^\s*step\s+(\d+)", open(spath).read(), flags=re.M)
+        run.dist("oracle:state-step")
+        if not m or int(m.group(1)) != last:
+            run.violation("outfiles:state-step", "the state file left by the run says step %s, the last step was %d" % (m.group(1) if m else None, last), replay)
+    if got != want:
+        run.mismatch("outfiles", c, got[:30], want[:30])
+    return len(got)
+
+
+def gen_out_case(r, tier):
+    R = r.choice([0, 0, 2, 3, 4])
+    nb = r.choice([0, 1, 2])
+    biases = [(b, r.choice([0, 1, 2, 3, 5])) for b in range(nb)]
+    it0 = r.choice([0, 0, r.randint(1, 12)])
+    n = r.randint(2, 10) + (r.randint(0, 20) if tier != "quick" else 0)
+    events = []
+    for i in range(n):
+        if events and i > 1 and r.random() < 0.12:
+            last = [e for e in events if e[0] == "step"][-1]
+            events += [["boundary"], list(last)]
+        else:
+            events.append(["step", V.dyadic(r, -8, 8, 2)])
+    return {"kind": "out", "R": R, "biases": biases, "it0": it0, "events": events}
+
+
 # ------------------------------------------------------------------ correlation function cases
 def acf_scenario(c, k):
     ty = c["vtype"]
@@ -1152,6 +1257,8 @@ def acf_scenario(c, k):
             L.append("step")
         elif ev[0] == "boundary":
             L.append("runboundary")
+    if c.get("post"):
+        L.append("postrun")
     L += ["flush", "restartfreq 0", "echo END %d" % k]
     return L
 
@@ -1245,6 +1352,9 @@ def check_acf_case(run, c, k, impl_lines, scratch, model):
         run.mismatch("acf:run", c, [l for l in impl_lines if "err=" in l][:6], "every step and configuration succeeds")
         return 0
     calcs, lw = acf_history(c)
+    lw_restart = lw
+    if c.get("post"):
+        lw = len(calcs) - 1          # the end of the run writes the final accumulators
     com, rows = parse_numfile(os.path.join(scratch, "c%ds0.v0.corrfunc.dat" % k))
     if lw is None:
         if rows:
@@ -1268,6 +1378,14 @@ def check_acf_case(run, c, k, impl_lines, scratch, model):
     irows = [(a, b[0]) for a, b in rows]
     # ---- oracle
     orows, n = acf_oracle(c, hist)
+    if c.get("post") and lw_restart != lw and orows not in ("degenerate", None):
+        # is the file the one of the last restart-frequency step?
+        stale = acf_oracle(c, calcs[:lw_restart + 1])[0] if lw_restart is not None else None
+        if (stale is None and not irows) or (stale not in (None, "degenerate") and len(stale) == len(irows) and stale != orows
+                                             and all(close(a[1], b[1], OTOL) for a, b in zip(irows, stale))):
+            run.violation("acf:stale-at-end", "after the end of the run (last step %d) the correlation function file holds the "
+                          "accumulators of step %s" % (calcs[lw][1], calcs[lw_restart][1] if lw_restart is not None else None), replay)
+            return 0
     if orows == "degenerate":
         run.dist("acf:skipped-degenerate-normalisation")
         return 0
@@ -1330,7 +1448,7 @@ def gen_acf_case(r, tier):
         else:
             events.append(["step", val(), val() if cross else None])
     return {"kind": "acf", "type": ty, "vtype": vtype, "len": ln, "stride": stride, "off": off, "norm": r.random() < 0.6,
-            "cross": cross, "R": R, "it0": it0, "dt": dt, "events": events}
+            "cross": cross, "R": r.choice([R, R, 0]), "it0": it0, "dt": dt, "events": events, "post": r.random() < 0.5}
 
 
 # ------------------------------------------------------------------ fixed scenarios (witnesses of the _refuted stage, kept as corpus)
@@ -1362,8 +1480,8 @@ def corpus_cases():
     return cs
 
 
-SCEN = {"traj": traj_scenario, "runave": runave_scenario, "acf": acf_scenario, "runavev": runavev_scenario}
-CHECK = {"traj": check_traj_case, "runave": check_runave_case, "acf": check_acf_case, "runavev": check_runavev_case}
+SCEN = {"traj": traj_scenario, "runave": runave_scenario, "acf": acf_scenario, "runavev": runavev_scenario, "out": out_scenario}
+CHECK = {"traj": check_traj_case, "runave": check_runave_case, "acf": check_acf_case, "runavev": check_runavev_case, "out": check_out_case}
 
 
 def run_cases(run, cases, unit, model, scratch):
@@ -1404,6 +1522,8 @@ def run_cases(run, cases, unit, model, scratch):
                     run.dist("traj:event:" + e[0])
         elif c["kind"] == "runave":
             run.dist("runave:L=%d,stride=%d" % (c["L"], c["stride"]))
+        elif c["kind"] == "out":
+            run.dist("out:R=%d" % c["R"])
         elif c["kind"] == "runavev":
             run.dist("runavev:%s:start%s" % (c["vtype"], "=0" if c["t0"] == 0 else (":on-grid" if c["t0"] % c["stride"] == 0 else ":off-grid")))
         else:
@@ -1444,6 +1564,8 @@ def check(run):
         cases.append(gen_acf_case(r, run.tier))
     for _ in range(100 * mult):
         cases.append(gen_runavev_case(r, run.tier))
+    for _ in range(60 * mult):
+        cases.append(gen_out_case(r, run.tier))
     total = run_cases(run, cases, unit, model, scratch)
     run.cov["rule"] = ("a case is one scenario (trajectory / running average / correlation function) driven through the engine "
                        "simulator; distinct = distinct configuration+length; nontrivial = at least one written number was compared")
